@@ -48,6 +48,91 @@ def evalbool(e, env):
     return env.get(k)
 
 
+def _worker_scope(ctx, rule, rs, ws, sname, p_abandon):
+    """which scope is handed to the worker thread (it is what from_thread.check_cancelled / from_thread.run attach to)"""
+    # value of the scope variable on every path into the hand-over, against the facts that hold there
+    inner, outer = sname, f"{sname}._parent_scope"
+    if isinstance(ws, ast.Name):
+        def is_assign(frag, node, name=ws.id):
+            n = node.node
+            return node.kind == "stmt" and isinstance(n, (ast.Assign, ast.AnnAssign, ast.AugAssign)) and \
+                any(isinstance(t, ast.Name) and t.id == name for t in (n.targets if isinstance(n, ast.Assign) else [n.target]))
+
+        def step_w(st, e, c):
+            if c.is_exc:
+                return st
+            if e == "assign":
+                n = c.node.node
+                return ast.unparse(n.value) if isinstance(n, (ast.Assign, ast.AnnAssign)) and n.value is not None else "?"
+            if e == "put":
+                return judge(st, c.facts)
+            return st
+        spec = [("assign", [is_assign]), ("put", "$W.queue.put_nowait($T)")]
+        init = None
+    else:
+        def step_w(st, e, c):
+            if e == "put" and not c.is_exc:
+                if isinstance(ws, ast.IfExp):
+                    return Bad("the scope handed to the worker is selected by an expression the rule cannot evaluate")
+                return judge(ast.unparse(ws), c.facts)
+            return st
+        spec = [("put", "$W.queue.put_nowait($T)")]
+        init = None
+
+    def judge(val, facts):
+        if val == inner:
+            if F(p_abandon) in facts or F(f"{sname}._parent_scope is None") in facts:
+                return val
+            return Bad(f"the thread is handed the call's own (shielded) scope `{inner}` although the call is not abandoned on cancel and an enclosing "
+                       "scope exists: from_thread.check_cancelled() and from_thread.run() would never see the caller's cancellation")
+        if val == outer:
+            if F(f"not {p_abandon}") in facts and F(f"{sname}._parent_scope is not None") in facts:
+                return val
+            return Bad(f"the thread is handed `{outer}` on a path where the call may be abandoned on cancel or there may be no enclosing scope")
+        return Bad(f"the scope handed to the worker is `{val}`: required is the call's own scope when abandoning (or when there is no enclosing scope) and "
+                   "its direct parent otherwise - a scope further out ignores the caller's shields, none at all hides its cancellation")
+
+    ctx.paths(rule, rs, spec, step_w, init, None,
+              instance="the thread is given the caller's directly enclosing scope unless abandoned (its own shielded scope would hide the caller's cancellation)")
+
+
+def _thread_call_anchors(ctx):
+    rs = ctx.fn("AsyncIOBackend.run_sync_in_worker_thread", A)
+    fn = rs.node
+    pnames = [a.arg for a in fn.args.args]
+    if len(pnames) < 5:
+        raise AnalysisError("R14: run_sync_in_worker_thread no longer takes (cls, func, args, abandon_on_cancel, limiter)")
+    p_abandon, p_lim = pnames[3], pnames[4]
+    limw = None
+    for w in [n for n in own_walk(fn) if isinstance(n, ast.AsyncWith)]:
+        if p_lim in {x.id for x in ast.walk(w.items[0].context_expr) if isinstance(x, ast.Name)}:
+            limw = w
+    sw = [n for n in own_walk(fn) if isinstance(n, ast.With) and any(isinstance(i.context_expr, ast.Call) and call_name(i.context_expr) == "CancelScope" for i in n.items)]
+    return rs, p_abandon, limw, sw
+
+
+def worker_scope(ctx, rule):
+    """(shared with C04) the scope published to the worker thread never lies outside the caller's own shields"""
+    rs, p_abandon, limw, sw = _thread_call_anchors(ctx)
+    tup = None
+    for st, env in ctx.sites(rs, "$W.queue.put_nowait($T)"):
+        if isinstance(env["T"], ast.Tuple):
+            tup = env["T"]
+    sname = sw[0].items[0].optional_vars.id if len(sw) == 1 and isinstance(sw[0].items[0].optional_vars, ast.Name) else None
+    if ctx.need(rule, rs, "hand-over tuple and the call's own scope in run_sync_in_worker_thread", 1 if (tup is not None and len(tup.elts) == 5 and sname) else 0, 1):
+        _worker_scope(ctx, rule, rs, tup.elts[4], sname, p_abandon)
+
+
+def token_wait_interruptible(ctx, rule):
+    """(shared with C03) the wait for a limiter token happens outside the call's internal shield: a caller queued for a token can still
+    be cancelled"""
+    rs, p_abandon, limw, sw = _thread_call_anchors(ctx)
+    if ctx.need(rule, rs, "limiter block and internal scope of run_sync_in_worker_thread", 1 if (limw is not None and len(sw) == 1) else 0, 1):
+        ok = any(x is sw[0] for x in ast.walk(limw)) and not any(x is limw for x in ast.walk(sw[0]))
+        ctx.ob(rule, rs, "the token is awaited outside the internal (shielded) scope", ok, node=sw[0],
+               detail="" if ok else "the limiter block is inside the shielded scope: a caller waiting for a token cannot be interrupted", by=("nesting",))
+
+
 def check(ctx):
     rs = ctx.fn("AsyncIOBackend.run_sync_in_worker_thread", A)
     fn = rs.node
@@ -182,51 +267,7 @@ def check(ctx):
     if ctx.need("R14-d", rs, "the queued item is a literal tuple", 1 if tup is not None else 0, 1) and sname:
         ctx.ob("R14-d", rs, "the queued tuple has 5 positions", len(tup.elts) == 5, detail=f"{len(tup.elts)} elements", by=("arity 5",))
     if tup is not None and len(tup.elts) == 5 and sname:
-        ws = tup.elts[4]
-        # value of the scope variable on every path into the hand-over, against the facts that hold there
-        inner, outer = sname, f"{sname}._parent_scope"
-        if isinstance(ws, ast.Name):
-            def is_assign(frag, node, name=ws.id):
-                n = node.node
-                return node.kind == "stmt" and isinstance(n, (ast.Assign, ast.AnnAssign, ast.AugAssign)) and \
-                    any(isinstance(t, ast.Name) and t.id == name for t in (n.targets if isinstance(n, ast.Assign) else [n.target]))
-
-            def step_w(st, e, c):
-                if c.is_exc:
-                    return st
-                if e == "assign":
-                    n = c.node.node
-                    return ast.unparse(n.value) if isinstance(n, (ast.Assign, ast.AnnAssign)) and n.value is not None else "?"
-                if e == "put":
-                    return judge(st, c.facts)
-                return st
-            spec = [("assign", [is_assign]), ("put", "$W.queue.put_nowait($T)")]
-            init = None
-        else:
-            def step_w(st, e, c):
-                if e == "put" and not c.is_exc:
-                    if isinstance(ws, ast.IfExp):
-                        return Bad("the scope handed to the worker is selected by an expression the rule cannot evaluate")
-                    return judge(ast.unparse(ws), c.facts)
-                return st
-            spec = [("put", "$W.queue.put_nowait($T)")]
-            init = None
-
-        def judge(val, facts):
-            if val == inner:
-                if F(p_abandon) in facts or F(f"{sname}._parent_scope is None") in facts:
-                    return val
-                return Bad(f"the thread is handed the call's own (shielded) scope `{inner}` although the call is not abandoned on cancel and an enclosing "
-                           "scope exists: from_thread.check_cancelled() and from_thread.run() would never see the caller's cancellation")
-            if val == outer:
-                if F(f"not {p_abandon}") in facts and F(f"{sname}._parent_scope is not None") in facts:
-                    return val
-                return Bad(f"the thread is handed `{outer}` on a path where the call may be abandoned on cancel or there may be no enclosing scope")
-            return Bad(f"the scope handed to the worker is `{val}`: required is the call's own scope when abandoning (or when there is no enclosing scope) and "
-                       "its direct parent otherwise - a scope further out ignores the caller's shields, none at all hides its cancellation")
-
-        ctx.paths("R14-c", rs, spec, step_w, init, None,
-                  instance="the thread is given the caller's directly enclosing scope unless abandoned (its own shielded scope would hide the caller's cancellation)")
+        _worker_scope(ctx, "R14-c", rs, tup.elts[4], sname, p_abandon)
     cc = ctx.fn("AsyncIOBackend.check_cancelled", A)
     check_walker(ctx, "R14-c", cc)
     src = ctx.sites(cc, "$S = threadlocals.current_cancel_scope")
@@ -398,6 +439,16 @@ def check(ctx):
            detail="" if okd else "to_thread.run_sync does not forward (func, args, abandon_on_cancel=abandon_on_cancel, limiter=limiter)", by=("argument forwarding",))
 
     loop_entry_points(ctx, "R14-f")
+
+    # ---- R14-g a coroutine started with from_thread.run joins the thread's scope: it is reached by a cancellation of that scope or of an
+    # enclosing one even when the scope's delivery has died down (shared with C03)
+    from .walkers import join_restarts, restart_walker
+    join_restarts(ctx, "R14-g", ("AsyncIOBackend.run_async_from_thread.task_wrapper",), 1)
+    restart_walker(ctx, "R14-g")
+
+    # ---- R14-h "never more running calls than the limiter's total": every grant of a token is capacity-guarded (shared with C10/R10-a)
+    from .c10 import grants_capacity_guarded
+    grants_capacity_guarded(ctx, "R14-h")
 
 
 def loop_entry_points(ctx, RULE):
